@@ -3,6 +3,7 @@ package harness
 import (
 	"encoding/json"
 	"fmt"
+	"math"
 	"net/url"
 	"os"
 	"reflect"
@@ -78,6 +79,10 @@ type c13Host struct {
 
 // declared (named) container types, as hand-written models are full of them: a named slice of strings, and
 // container types that refer to themselves without a struct in between
+type c13Err struct{ msg string }
+
+func (e c13Err) Error() string { return "c13: " + e.msg }
+
 type c13Tags []string
 type c13Forest []c13Forest
 type c13Obj map[string]c13Obj
@@ -291,6 +296,35 @@ func c13AllShapes() map[string]func() interface{} {
 		return &c13Decl{Tags: c13Tags{"a", "b", "a"}, Sorted: sort.StringSlice{"1", "2"}, Forest: c13Forest{nil, c13Forest{}}, Obj: c13Obj{"a": nil, "b": c13Obj{}}, Name: "n"}
 	}
 	m["declared-container-types-zero"] = func() interface{} { return &c13Decl{} }
+	// collections of pointers whose type has a String / Error method with a value receiver, holding nil
+	m["slice-of-stringer-pointers-with-nil"] = func() interface{} {
+		now := time.Unix(1700000000, 0)
+		return []*time.Time{nil, &now, nil}
+	}
+	m["slice-of-url-pointers-with-nil"] = func() interface{} { u, _ := url.Parse("http://a.b/c"); return []*url.URL{nil, u} }
+	m["slice-of-enum-pointers-with-nil"] = func() interface{} { e := lib.MyI32(1); return []*lib.MyI32{nil, &e, nil} }
+	m["array-of-error-pointers-with-nil"] = func() interface{} { return [2]*c13Err{nil, {}} }
+	m["struct-with-stringer-pointer-slices"] = func() interface{} {
+		return &struct {
+			Tags []*time.Time
+			Sl   []*lib.MyI32
+			Name string
+		}{Tags: []*time.Time{nil}, Sl: []*lib.MyI32{nil, nil}, Name: "n"}
+	}
+	// maps with a NaN key (an entry that no lookup finds again), walked by the struct validator
+	m["nan-key-map-of-structs"] = func() interface{} {
+		return map[float64]lib.Leaf{math.NaN(): {Name: ""}, 1: {Name: "n"}}
+	}
+	m["nan-key-map-of-struct-pointers"] = func() interface{} {
+		return map[float64]*lib.Leaf{math.NaN(): {}, math.Inf(1): nil}
+	}
+	m["struct-with-nan-key-maps"] = func() interface{} {
+		return &struct {
+			M  map[float64]lib.Leaf
+			MI map[[2]float64]*lib.Leaf
+			I  map[interface{}]lib.Leaf
+		}{M: map[float64]lib.Leaf{math.NaN(): {}}, MI: map[[2]float64]*lib.Leaf{{math.NaN(), 1}: {}}, I: map[interface{}]lib.Leaf{math.NaN(): {}, "k": {}}}
+	}
 	m["named-string-slice"] = func() interface{} { return c13Tags{"a", "b", "a"} }
 	m["sort-string-slice"] = func() interface{} { return sort.StringSlice{"1", "2", "1"} }
 	m["self-referential-slice"] = func() interface{} { return c13Forest{nil, c13Forest{c13Forest{}}} }
